@@ -36,9 +36,15 @@ func genRexp(rng *rand.Rand, idx int, tier string) Case {
 	}
 	pats = append(pats, badPatPool[rng.Intn(len(badPatPool))], fmt.Sprintf("(bad%d", idx))
 	progs := []interface{}{}
+	burst := rng.Intn(2) == 0 // every goroutine starts with a pattern of its own that nobody has compiled yet
 	for t := 0; t < n; t++ {
 		k := 3 + rng.Intn(8)
 		calls := []interface{}{}
+		if burst {
+			own := fmt.Sprintf("^k%d_own%d[a-c]{%d}$", idx, t, t%3)
+			pats = append(pats, own)
+			calls = append(calls, map[string]interface{}{"kind": "pattern", "pattern": own, "str": fmt.Sprintf("k%d_own%d%s", idx, t, "abc"[:t%3])})
+		}
 		for i := 0; i < k; i++ {
 			p := pats[rng.Intn(len(pats))]
 			s := strPool[rng.Intn(len(strPool))]
@@ -52,7 +58,16 @@ func genRexp(rng *rand.Rand, idx int, tier string) Case {
 			case 1:
 				kind = "pattern-properties"
 			}
-			calls = append(calls, map[string]interface{}{"kind": kind, "pattern": p, "str": s})
+			call := map[string]interface{}{"kind": kind, "pattern": p, "str": s}
+			if kind == "pattern-properties" && rng.Intn(2) == 0 {
+				// the same schema also names patterns that do not compile: they are skipped, the valid one still decides
+				others := []interface{}{}
+				for j := 0; j < 1+rng.Intn(5); j++ {
+					others = append(others, fmt.Sprintf("(bad%d_%d", idx, j))
+				}
+				call["others"] = others
+			}
+			calls = append(calls, call)
 		}
 		progs = append(progs, calls)
 	}
@@ -76,7 +91,11 @@ func rexpCall(call map[string]interface{}) map[string]interface{} {
 		}
 		return map[string]interface{}{"match": false, "invalid": strings.Contains(err.Error(), "but pattern is invalid")}
 	default: // pattern-properties: the member named s must be an integer iff the pattern matches its name
-		sb, _ := json.Marshal(map[string]interface{}{"patternProperties": map[string]interface{}{p: map[string]interface{}{"type": "integer"}}})
+		pp := map[string]interface{}{p: map[string]interface{}{"type": "integer"}}
+		for _, o := range asList(call["others"]) {
+			pp[asStr(o)] = map[string]interface{}{"type": "integer"}
+		}
+		sb, _ := json.Marshal(map[string]interface{}{"patternProperties": pp})
 		err := validate.AgainstSchema(parseSchemaJSON(sb), map[string]interface{}{s: "not an integer"}, strfmt.Default)
 		// an invalid pattern in patternProperties is skipped by the library (outside C01's vocabulary): "no match"
 		return map[string]interface{}{"match": err != nil, "invalid": false}
@@ -121,6 +140,23 @@ func runRexp(c Case) interface{} {
 	}
 	close(start)
 	wg.Wait()
+	// afterwards, alone: every pattern of the case is asked for again (they are all cached by now) and must still be itself
+	after := []interface{}{}
+	for _, pv := range asList(c["patterns"]) {
+		p := asStr(pv)
+		rx, err := regexp.Compile(p)
+		if err != nil {
+			continue
+		}
+		for _, probe := range []string{strings.NewReplacer("^", "", "$", "", "[a-c]{0}", "", "[a-c]{1}", "a", "[a-c]{2}", "ab").Replace(p), "zzz", ""} {
+			got := safeCall(func() map[string]interface{} {
+				return rexpCall(map[string]interface{}{"kind": "pattern", "pattern": p, "str": probe})
+			})
+			if m, _ := got["match"].(bool); m != rx.MatchString(probe) || got["panic"] != nil {
+				after = append(after, []interface{}{p, probe, got, rx.MatchString(probe)})
+			}
+		}
+	}
 	// audit the cache
 	snap := validate.VerifRegexpCacheSnapshot()
 	wrong := []interface{}{}
@@ -158,5 +194,5 @@ func runRexp(c Case) interface{} {
 		}
 		return out
 	}
-	return map[string]interface{}{"subj": toIface(subj), "want": toIface(want), "wrongEntries": wrong, "lostEntries": lost, "cacheSize": len(snap)}
+	return map[string]interface{}{"subj": toIface(subj), "want": toIface(want), "wrongEntries": wrong, "lostEntries": lost, "afterwards": after, "cacheSize": len(snap)}
 }
